@@ -25,6 +25,7 @@ import (
 	storetypes "cosmossdk.io/store/types"
 	sdk "github.com/cosmos/cosmos-sdk/types"
 	datypes "github.com/sunriselayer/sunrise/x/da/types"
+	authtypes "github.com/cosmos/cosmos-sdk/x/auth/types"
 	feetypes "github.com/sunriselayer/sunrise/x/fee/types"
 	litypes "github.com/sunriselayer/sunrise/x/liquidityincentive/types"
 	lptypes "github.com/sunriselayer/sunrise/x/liquiditypool/types"
@@ -336,6 +337,16 @@ func suiteGenesis(e *Env) {
 		for _, c := range []*sim.Chain{a, b} {
 			if err := seedUnreachable(c, NewRng(hseed+7)); err != nil {
 				e.Obs("seed-error %v", err)
+			}
+			if hI%2 == 1 {
+				// governance sets valid non-default params whose zero values must survive the round trip as they are (an empty
+				// bypass list means "only the fee denom"), not be replaced by defaults on import
+				gov := authtypes.NewModuleAddress("gov").String()
+				if _, err, p := c.Exec(&feetypes.MsgUpdateParams{Authority: gov, Params: feetypes.Params{FeeDenom: "urise", BurnRatio: "0.25", BypassDenoms: []string{}}}); err != nil || p != nil {
+					e.Note("fee MsgUpdateParams: %v %v", err, p)
+				} else {
+					e.Stat("genesis.fee_params_empty_bypass")
+				}
 			}
 		}
 		before := dumpStores(a, rows)
